@@ -32,6 +32,22 @@ pub enum Error {
 /// Queries have 10 seconds to returns before closing connection
 pub static NETWORK_TIMEOUT_SEC: u64 = 10;
 
+///
+/// Context of the identity challenge of the connection handshake.
+/// The bytes chosen by the remote peer are never signed as they are:
+/// the signed message is derived from them with blake3's key derivation mode,
+/// which is separated by construction from the plain hash mode that produces the digests of the synchronised rows.
+/// A signature obtained through Query::ProveIdentity can therefore not be replayed as the signature of a node, an edge or a deletion.
+///
+pub const IDENTITY_CHALLENGE_CONTEXT: &str = "discret identity challenge";
+
+///
+/// the message that is signed and verified for an identity challenge
+///
+pub fn identity_challenge_message(challenge: &[u8]) -> [u8; 32] {
+    security::derive_key(IDENTITY_CHALLENGE_CONTEXT, challenge)
+}
+
 #[derive(Serialize, Deserialize)]
 pub enum Query {
     ProveIdentity(Vec<u8>),
@@ -85,7 +101,10 @@ pub struct IdentityAnswer {
 impl IdentityAnswer {
     pub fn verify(&self, challenge: &[u8]) -> Result<(), security::Error> {
         let pub_key = security::import_verifying_key(&self.peer.verifying_key)?;
-        pub_key.verify(challenge, &self.chall_signature)?;
+        pub_key.verify(
+            &identity_challenge_message(challenge),
+            &self.chall_signature,
+        )?;
         Ok(())
     }
 }
